@@ -411,6 +411,43 @@ class Run:
         self.phase("P1_proof", ok=not (missing or bad), axioms=axioms)
         return not (missing or bad)
 
+    def tables_phase(self, area):
+        """P2: regenerate the table-shaped parts of the model (area Sched|Bus|Guard) from /repo's current source and
+        re-check that they are definitionally the hand-written model (Tie/Tables<area>Agree.v)."""
+        d = os.path.join(WORK, "tables-" + self.prop)
+        shutil.rmtree(d, ignore_errors=True)
+        os.makedirs(os.path.join(d, "Gen")); os.makedirs(os.path.join(d, "Tie"))
+        sys.path.insert(0, os.path.join(ROOT, "translator"))
+        try:
+            import extract_tables
+            extract_tables.REPO = REPO
+            extract_tables.SRC = os.path.join(REPO, "crates/warp-core/src")
+            text = extract_tables.generate(area)
+        except Exception as e:   # ExtractError or IO
+            self.is_broken("tables:extractor", f"translator could not parse the source: {e}")
+            self.phase("P2_tables", ok=False)
+            return False
+        open(os.path.join(d, "Gen", f"Tables{area}.v"), "w").write(text)
+        tie = open(os.path.join(COQ, "Tie", f"Tables{area}Agree.v")).read()
+        nlem = tie.count("Lemma ")
+        tie = tie.replace(f" Gen.Tables{area}.", f".\nFrom EchoT Require Import Gen.Tables{area}.")
+        open(os.path.join(d, "Tie", f"Tables{area}Agree.v"), "w").write(tie)
+        models = {"Sched": ["Model/Sched.vo", "Model/Tick.vo"], "Bus": ["Model/Bus.vo"], "Guard": ["Model/Patch.vo", "Model/Guard.vo"]}[area]
+        rc, out = coq_make(models)
+        if rc:
+            self.is_broken("tables:models", out[-1500:]); return False
+        for f in (f"Gen/Tables{area}.v", f"Tie/Tables{area}Agree.v"):
+            rc, out = sh(["coqc", "-noglob", "-Q", COQ, "Echo", "-Q", d, "EchoT", os.path.join(d, f)], timeout=600)
+            if rc:
+                self.is_broken("tables:" + f, "regenerated table no longer equals the model (or does not compile):\n" + out[-1500:])
+                self.phase("P2_tables", ok=False)
+                return False
+        self.cov["obligations"] += nlem
+        self.cov["discharged"] += nlem
+        self.cov["tables_regenerated_from_source"] = self.cov.get("tables_regenerated_from_source", 0) + nlem
+        self.phase("P2_tables_" + area, ok=True, lemmas=nlem)
+        return True
+
     def finish(self):
         prop = self.prop
         evd = os.path.join(OUT, "evidence")
